@@ -306,6 +306,16 @@ def r_render(ctx):
         except Unknown as e:
             ctx.incomplete_msg(rid, "%s: %s" % (name, e))
             continue
+        if " empty comments" in name or " blank comments" in name:
+            # a text-less comment: exactly one `;`, and nothing but blanks after it on its line
+            ty = world.type_of(node)
+            line = world.display[ty].line if ty in world.display else 1
+            ctx.site(rid, name, AST, line, {"printed": got})
+            if got.count(";") != 1:
+                ctx.violation(rid, name + "|count", AST, line, "%s: the text-less comment is emitted %d times in %r" % (name, got.count(";"), got))
+            elif got[got.find(";") + 1:].split("\n", 1)[0].strip():
+                ctx.violation(rid, name + "|absorbs", AST, line, "%s: code follows the text-less comment on its line in %r: it becomes comment text" % (name, got))
+            continue
         m = re.search(r"(note|after) \d", name + " ")
         texts = re.findall(r"; ?((?:note|after) \d)", got)
         want = re.findall(r"(?:note|after) \d", " ".join(re.findall(r"on #\d", name)))
